@@ -15,6 +15,8 @@
   * `so3_d2rExp_hasDerivAt`, `so3_d2rExpinv_hasDerivAt`, `se2_d2rExp_hasDerivAt`,
     `se2_d2rExpinv_hasDerivAt`: all 27 entries each, closed-form branch;
   * series-branch coefficients are consistent (`dA`, `dB` are the derivatives of the series `A`, `B`);
+  * Bundle: `bundle_d2rExp_hasDerivAt`, `bundle_d2rExpinv_hasDerivAt` lift the Hessian statement from
+    the parts to every Bundle composition;
   * `d2l_def`, `d2r_rminus_def`, `d2r_rminus_squarednorm_def`.
 -/
 import SmoothProofs.C05Alg
@@ -26,6 +28,7 @@ import SmoothProofs.C05Series
 import SmoothProofs.C05SE3
 import SmoothProofs.C05SE3H
 import SmoothProofs.C05SE3Hinv
+import SmoothProofs.C05Bundle
 
 open Lin Scalar
 
@@ -243,6 +246,85 @@ theorem se2_ad_sq (a : Vec ℝ 3) :
     mmul (SE2.ad a) (SE2.ad a)
       = mat3 (-(a 2 * a 2)) 0 (a 2 * a 0) 0 (-(a 2 * a 2)) (a 2 * a 1) 0 0 0 :=
   C05SE2.ad_sq a
+
+/-! ### every Bundle composition -/
+
+/-- `G.d2r_exp a` holds all partial derivatives of `G.dr_exp` at `a`:
+    `H[r, D·j + k] = ∂J[j,r]/∂a_k` for all `j r k` -/
+abbrev HessAt : C04Bundle.PointProp := C05Bundle.HessAt
+/-- the same for `d2r_expinv` / `dr_expinv` -/
+abbrev HessInvAt : C04Bundle.PointProp := C05Bundle.HessInvAt
+
+theorem hessAt_iff (G : LieModel ℝ) (a : Vec ℝ G.dof) :
+    HessAt G a ↔ ∀ (j r k : Fin G.dof), HasDerivAt (fun t => (G.dr_exp (shift a k t)) j r)
+      ((G.d2r_exp a) r ⟨G.dof * j.val + k.val, C06.col_lt j.isLt k.isLt⟩) 0 := Iff.rfl
+
+/-- Bundle: the Hessian statement lifts from the parts to `Bundle.bundle ps` (block-diagonal Jacobian,
+    `hessPlace` placement `H[off+r, D(off+j)+off+k] = Hᵢ[r, dᵢ j + k]`, zero cross blocks), for any
+    list of parts — order, repetition, nesting. -/
+theorem bundle_d2rExp_hasDerivAt (ps : List (LieModel ℝ)) (a : Vec ℝ (Bundle.bundle ps).dof)
+    (h : C04Bundle.AllParts HessAt ps a) : HessAt (Bundle.bundle ps) a :=
+  C05Bundle.hessAt_bundle ps a h
+
+theorem bundle_d2rExpinv_hasDerivAt (ps : List (LieModel ℝ)) (a : Vec ℝ (Bundle.bundle ps).dof)
+    (h : C04Bundle.AllParts HessInvAt ps a) : HessInvAt (Bundle.bundle ps) a :=
+  C05Bundle.hessInvAt_bundle ps a h
+
+theorem prod_d2rExp_hasDerivAt (A B : LieModel ℝ) (a : Vec ℝ (A.dof + B.dof))
+    (hA : HessAt A (Bundle.fst a)) (hB : HessAt B (Bundle.snd a)) : HessAt (Bundle.prod A B) a :=
+  C05Bundle.hessAt_prod A B a hA hB
+
+theorem prod_d2rExpinv_hasDerivAt (A B : LieModel ℝ) (a : Vec ℝ (A.dof + B.dof))
+    (hA : HessInvAt A (Bundle.fst a)) (hB : HessInvAt B (Bundle.snd a)) :
+    HessInvAt (Bundle.prod A B) a :=
+  C05Bundle.hessInvAt_prod A B a hA hB
+
+/-- the part facts that feed `AllParts`: closed branch of the non-commutative groups … -/
+theorem so3_hessAt (a : Vec ℝ 3) (h : Scalar.eps2 < sqNorm a) : HessAt (SO3.model : LieModel ℝ) a :=
+  fun j r k => so3_d2rExp_hasDerivAt a h j r k
+theorem so3_hessInvAt (a : Vec ℝ 3) (h : Scalar.eps2 < sqNorm a)
+    (hs : Real.sin (Real.sqrt (sqNorm a)) ≠ 0) : HessInvAt (SO3.model : LieModel ℝ) a :=
+  fun j r k => so3_d2rExpinv_hasDerivAt a h hs j r k
+theorem se2_hessAt (a : Vec ℝ 3) (h : Scalar.eps2 < a 2 * a 2) : HessAt (SE2.model : LieModel ℝ) a :=
+  fun j r k => se2_d2rExp_hasDerivAt a h j r k
+theorem se2_hessInvAt (a : Vec ℝ 3) (h : Scalar.eps2 < a 2 * a 2) (hs : Real.sin (a 2) ≠ 0) :
+    HessInvAt (SE2.model : LieModel ℝ) a :=
+  fun j r k => se2_d2rExpinv_hasDerivAt a h hs j r k
+theorem se3_hessAt (a : Vec ℝ 6) (h : Scalar.eps2 < sqNorm (SE3.tw a)) :
+    HessAt (SE3.model : LieModel ℝ) a :=
+  fun j r k => se3_d2rExp_hasDerivAt a h j r k
+theorem se3_hessInvAt (a : Vec ℝ 6) (h : Scalar.eps2 < sqNorm (SE3.tw a))
+    (hs : Real.sin (Real.sqrt (sqNorm (SE3.tw a))) ≠ 0) : HessInvAt (SE3.model : LieModel ℝ) a :=
+  fun j r k => se3_d2rExpinv_hasDerivAt a h hs j r k
+
+/-- … and the commutative groups / vectors / scalars everywhere (constant `J = I`, `H = 0`). -/
+theorem comm_hessAt :
+    (∀ a, HessAt (SO2.model : LieModel ℝ) a ∧ HessInvAt (SO2.model : LieModel ℝ) a) ∧
+    (∀ a, HessAt (C1.model : LieModel ℝ) a ∧ HessInvAt (C1.model : LieModel ℝ) a) ∧
+    (∀ (n : Nat) a, HessAt (Tn.model n : LieModel ℝ) a ∧ HessInvAt (Tn.model n : LieModel ℝ) a) :=
+  ⟨fun a => ⟨C05Bundle.isHessOf_const _ _ a _ (fun _ => rfl) rfl,
+      C05Bundle.isHessOf_const _ _ a _ (fun _ => rfl) rfl⟩,
+   fun a => ⟨C05Bundle.isHessOf_const _ _ a _ (fun _ => rfl) rfl,
+      C05Bundle.isHessOf_const _ _ a _ (fun _ => rfl) rfl⟩,
+   fun _ a => ⟨C05Bundle.isHessOf_const _ _ a _ (fun _ => rfl) rfl,
+      C05Bundle.isHessOf_const _ _ a _ (fun _ => rfl) rfl⟩⟩
+
+/-- non-vacuity: the nested bundle `B[SO3, B[T2, SE2]]` at `a = (1,0,0 | 5,6 | 2,3,1)` -/
+example : C04Bundle.AllParts HessAt
+    [(SO3.model : LieModel ℝ), Bundle.bundle [(Tn.model 2 : LieModel ℝ), (SE2.model : LieModel ℝ)]]
+    (vcat (mk3 (1:ℝ) 0 0) (vcat (vcat (mk2 (5:ℝ) 6) (vcat (mk3 (2:ℝ) 3 1) (vzero 0))) (vzero 0))) := by
+  have h1 : Scalar.eps2 < sqNorm (mk3 (1:ℝ) 0 0) := by
+    have h : sqNorm (mk3 (1:ℝ) 0 0) = 1 := by simp [C04Alg.sqNorm3, mk3]
+    rw [h, C04SO3.eps2_real]; norm_num
+  have h2 : Scalar.eps2 < (mk3 (2:ℝ) 3 1) 2 * (mk3 (2:ℝ) 3 1) 2 := by
+    show Scalar.eps2 < (1:ℝ) * 1
+    rw [C04SO3.eps2_real]; norm_num
+  refine ⟨?_, ?_, trivial⟩
+  · erw [C06.fst_vcat]; exact so3_hessAt _ h1
+  · erw [C06.snd_vcat, C06.fst_vcat]
+    refine C05Bundle.hessAt_bundle _ _ ⟨?_, ?_, trivial⟩
+    · erw [C06.fst_vcat]; exact (comm_hessAt.2.2 2 _).1
+    · erw [C06.snd_vcat, C06.fst_vcat]; exact se2_hessAt _ h2
 
 /-! ### `d2r_rminus`, `d2r_rminus_squarednorm` -/
 
